@@ -130,3 +130,55 @@ func TestGzvReplayCache(t *testing.T) {
 		}
 	}
 }
+
+// the cache CLUSTER (consistent-hash dispatch over several nodes) is not under contract: bounded stand-in.
+// Oracle: a read-through followed by an invalidation of any set of keys (one call) leaves none of those keys cached on any
+// node, and reads go to the node the key was written to (a value set is the value got).
+func TestGzvBoundedCacheCluster(t *testing.T) {
+	logx.Disable()
+	errNotFound := errors.New("row not found")
+	for nodes := 2; nodes <= 3; nodes++ {
+		var servers []*miniredis.Miniredis
+		var conf ClusterConf
+		for i := 0; i < nodes; i++ {
+			s, err := miniredis.Run()
+			if err != nil {
+				t.Fatalf("miniredis: %v", err)
+			}
+			defer s.Close()
+			servers = append(servers, s)
+			conf = append(conf, NodeConf{RedisConf: redis.RedisConf{Host: s.Addr(), Type: redis.NodeType}, Weight: 100})
+		}
+		c := New(conf, syncx.NewSingleFlight(), NewStat("gzvc"), errNotFound)
+		rnd := rand.New(rand.NewSource(int64(nodes)))
+		for round := 0; round < 60; round++ {
+			n := 1 + rnd.Intn(6)
+			var keys []string
+			for i := 0; i < n; i++ {
+				keys = append(keys, fmt.Sprintf("user:%d", rnd.Intn(40)))
+			}
+			for i, k := range keys {
+				if err := c.Set(k, round*100+i); err != nil {
+					t.Fatalf("Set: %v", err)
+				}
+				var v int
+				if err := c.Get(k, &v); err != nil || v != round*100+i {
+					t.Errorf("GZV-REPRODUCED cache cluster of %d nodes: Set(%s,%d) then Get = (%d,%v)", nodes, k, round*100+i, v, err)
+					return
+				}
+			}
+			if err := c.Del(keys...); err != nil {
+				t.Fatalf("Del: %v", err)
+			}
+			for _, k := range keys {
+				for j, s := range servers {
+					if s.Exists(k) {
+						t.Errorf("GZV-REPRODUCED cache cluster of %d nodes: after Del(%v) key %s is still cached on node %d", nodes, keys, k, j)
+						return
+					}
+				}
+			}
+		}
+	}
+	t.Log("GZV-BOUNDED clusters of 2 and 3 nodes, 60 rounds of 1..6 keys (40 distinct) set, read and invalidated in one call")
+}
